@@ -236,3 +236,42 @@ def replay_update_emissions(model, spec=None):
 
 
 REPLAYERS['update_emissions_entry'] = replay_update_emissions
+
+
+# ---------------------------------------------------------------- C12.d: forced deleverage - every token that leaves is charged against the group's daily limit
+def t_deleverage_limit(world):
+    from specs.flows import run_flow, evs, MACC_FLAGS, F_RECV, F_DELEV
+    eng, f, args, res = run_flow(world, 'withdraw')
+    ob = Ob('C12.d.withdraw', 'withdraw from an account in deleverage: the dollar value charged to the group\'s daily window is calc_value(amount ACTUALLY transferred out, the fetched low-bias price, the bank\'s decimals), '
+            'update_withdrawn_equity is called with exactly that value and the current clock, and its rejection (daily limit exceeded) is propagated',
+            [f.name], 'handler mode; kernels opaque (update_withdrawn_equity arithmetic is not decided here); every accepting path with ACCOUNT_IN_DELEVERAGE and ACCOUNT_IN_RECEIVERSHIP set (they are set and cleared together by start/end_deleverage)')
+    ob.paths = len(res)
+    n_ok = 0
+    for r, okc in ok_paths(res):
+        E = evs(r)
+        loads = [e for e in E if e[0] == 'call' and 'AccountLoader' in e[1] and 'MarginfiAccount' in e[1]]
+        T = [e for e in E if e[0] == 'call' and re.search(r'withdraw_spl_transfer$', e[1])]
+        if not loads or len(T) != 1: continue
+        flags = z3.Int(f'{loads[0][2][0]}.acct.{MACC_FLAGS}')
+        delev = z3.And((flags / F_DELEV) % 2 == 1, (flags / F_RECV) % 2 == 1)     # start_deleverage sets both flags together (C10), end clears both
+        if ob.witness(eng, r, [okc, delev]) is False: continue
+        n_ok += 1
+        up = [e for e in E if e[0] == 'call' and re.search(r'update_withdrawn_equity$', e[1])]
+        cv = [e for e in E if e[0] == 'call' and re.search(r'calc_value$', e[1])]
+        fp = [e for e in E if e[0] == 'call' and re.search(r'fetch_asset_price_for_bank_low_bias$', e[1])]
+        if len(up) != 1 or len(cv) != 1:
+            ob.structural(f'{len(up)} update_withdrawn_equity / {len(cv)} calc_value calls on a deleverage withdrawal', 'limit-not-charged', {'trace': [short(x[1]) if x[0] == 'call' else x[1] for x in E][:60]}); continue
+        t_amt = T[0][2][1].e
+        ob.prove(eng, r, [okc, delev], cv[0][2][0].e == t_amt * W, 'the valued amount is the amount transferred out', role='limit-amount')
+        if len(fp) == 1: ob.prove(eng, r, [okc, delev], cv[0][2][1].e == fp[0][3].payload[0][0].e, 'valued at the fetched low-bias price', role='limit-price')
+        else: ob.structural('no single low-bias price fetch on a deleverage withdrawal', 'limit-price')
+        ob.prove(eng, r, [okc, delev], z3.And(zint(cv[0][3].disc) == 0, up[0][2][1].e == cv[0][3].payload[0][0].e, up[0][2][2].e == z3.Int('clock.unix_timestamp'), zint(up[0][3].disc) == 0),
+                 'update_withdrawn_equity(value, now) with exactly that value; both errors propagated', role='limit-charged')
+    ob.notes.append(f'{n_ok} accepting deleverage paths')
+    ob.need_witness()
+    return [ob]
+
+
+_t12d = tasks
+def tasks(tier):
+    return _t12d(tier) + [('deleverage_limit', t_deleverage_limit)]
